@@ -4,6 +4,7 @@
 From Coq Require Import Floats.
 From GenqlV Require Import Base.Prelude Base.Fmt Base.Value Model.Ast Model.Like Model.Num Model.Eval Model.Exec.
 From GenqlV Require Import Spec.StageSpec Proofs.C07Mono.
+From Coq Require Import ZifyBool ZifyNat.
 Local Open Scope list_scope.
 
 (* ================================================================== *)
@@ -291,15 +292,23 @@ Section RowLoop.
   Proof. destruct v; intros H; try contradiction; reflexivity. Qed.
 End RowLoop.
 
+Lemma blind_copy s : blind_select s = true -> blind_select (copy_query7 s) = true.
+Proof. intros H. exact H. Qed.
+
+Lemma same_pipeline_copy s s' : same_pipeline s s' -> same_pipeline (copy_query7 s) (copy_query7 s').
+Proof.
+  intros (Hwh & Hgr & Hha & Hit & Hdi & Hor & Hli & Hof). repeat split; cbn; assumption.
+Qed.
+
 Section RunBlind.
-  Variable rec : qctx -> job -> res value.
+  Variables rec1 rec2 : qctx -> job -> res value.
   Variable call : string -> string -> list value -> row -> res raw.
   Variable join : jointype -> jstrategy -> list value -> list value -> string -> string ->
                   expr stmt -> row -> res (list value).
 
   Lemma mk_env_blind a b s s' filtered :
     s_group s = s_group s' ->
-    env_blind (mk_env rec call join a s filtered) (mk_env rec call join b s' filtered).
+    env_blind (mk_env rec1 call join a s filtered) (mk_env rec2 call join b s' filtered).
   Proof.
     intros Hg. split; cbn [mk_env e_hard e_agg]; try reflexivity.
     - intros f arg c1 c2 Hc. rewrite <- Hg. destruct (s_group s); [reflexivity|].
@@ -309,35 +318,32 @@ Section RunBlind.
       + destruct (lookup "*" c) as [[| | | |ms|]|]; try discriminate. apply eval_agg_raw.
   Qed.
 
-  Variables a b : qctx.
-  Hypothesis Hrows : forall s1 s2 rows, blind_select s1 = true -> same_pipeline s1 s2 ->
-    rec a (JRows s1 rows) = rec b (JRows s2 rows).
-
-  Theorem run_select_blind s s' rows :
+  (* the two interpreters (and contexts) need to agree only on the inner arrays among the rows *)
+  Theorem run_select_blind a b s s' rows :
     blind_select s = true -> same_pipeline s s' ->
-    run_select rec call join a s (Some rows) = run_select rec call join b s' (Some rows).
+    (forall inner, In (VArr inner) rows ->
+       rec1 a (JRows (copy_query7 s) inner) = rec2 b (JRows (copy_query7 s') inner)) ->
+    run_select rec1 call join a s (Some rows) = run_select rec2 call join b s' (Some rows).
   Proof.
-    intros Hb Hp. pose proof Hp as (Hwh & Hgr & Hha & Hit & Hdi & Hor & Hli & Hof).
+    intros Hb Hp Hrows. pose proof Hp as (Hwh & Hgr & Hha & Hit & Hdi & Hor & Hli & Hof).
     pose proof Hb as Hb'. unfold blind_select in Hb'. split_andb.
     unfold run_select. f_equal.
     (* the row loop *)
-    assert (Hfilter : filter_rows rec a s (mk_env rec call join a s []) rows =
-                      filter_rows rec b s' (mk_env rec call join b s' []) rows).
-    { induction rows as [|cur r IH]; [reflexivity|].
-      destruct cur; try (rewrite !filter_rows_skip7 by exact I; exact IH).
-      - rewrite !filter_rows_arr7, IH.
-        rewrite (Hrows (copy_query7 s) (copy_query7 s') l); [reflexivity| |].
-        + unfold blind_select; cbn [copy_query7 s_where s_having s_items]. exact Hb.
-        + repeat split; cbn; assumption.
-      - rewrite !filter_rows_obj7, IH, <- Hwh.
+    assert (Hfilter : filter_rows rec1 a s (mk_env rec1 call join a s []) rows =
+                      filter_rows rec2 b s' (mk_env rec2 call join b s' []) rows).
+    { revert Hrows. induction rows as [|cur r IH]; intros Hrows; [reflexivity|].
+      assert (IH' := IH (fun inner H => Hrows inner (or_intror H))).
+      destruct cur; try (rewrite !filter_rows_skip7 by exact I; exact IH').
+      - rewrite !filter_rows_arr7, IH'. rewrite (Hrows l (or_introl eq_refl)). reflexivity.
+      - rewrite !filter_rows_obj7, IH', <- Hwh.
         rewrite (eval_cond_blind _ _ (mk_env_blind a b s s' [] Hgr) (s_where s) kvs kvs);
           auto using rows_agree_refl. }
     rewrite Hfilter.
-    destruct (filter_rows rec b s' (mk_env rec call join b s' []) rows) as [filtered| | |];
+    destruct (filter_rows rec2 b s' (mk_env rec2 call join b s' []) rows) as [filtered| | |];
       cbn [bind]; try reflexivity.
     assert (HE := mk_env_blind a b s s' filtered Hgr).
-    assert (Hgroup : exec_group_by (mk_env rec call join a s filtered) s filtered =
-                     exec_group_by (mk_env rec call join b s' filtered) s' filtered).
+    assert (Hgroup : exec_group_by (mk_env rec1 call join a s filtered) s filtered =
+                     exec_group_by (mk_env rec2 call join b s' filtered) s' filtered).
     { unfold exec_group_by. rewrite <- Hgr. destruct (s_group s) as [|c cols]; [reflexivity|].
       destruct (group_rows (c :: cols) filtered []) as [gs| | |]; cbn [bind]; try reflexivity.
       f_equal. induction gs as [|g gs IH]; [reflexivity|].
@@ -345,10 +351,10 @@ Section RunBlind.
       rewrite (eval_cond_blind _ _ HE (s_having s) (group_row g) (group_row g));
         auto using rows_agree_refl. }
     rewrite Hgroup.
-    destruct (exec_group_by (mk_env rec call join b s' filtered) s' filtered) as [grouped| | |];
+    destruct (exec_group_by (mk_env rec2 call join b s' filtered) s' filtered) as [grouped| | |];
       cbn [bind]; try reflexivity.
-    assert (Hsel : exec_select (mk_env rec call join a s filtered) s grouped =
-                   exec_select (mk_env rec call join b s' filtered) s' grouped).
+    assert (Hsel : exec_select (mk_env rec1 call join a s filtered) s grouped =
+                   exec_select (mk_env rec2 call join b s' filtered) s' grouped).
     { unfold exec_select. rewrite <- Hgr, <- Hit.
       destruct ((match s_group s with [] => true | _ => false end) && all_aggregate (s_items s)).
       - rewrite (select_expr_blind _ _ HE (s_items s)) by assumption. reflexivity.
@@ -358,6 +364,20 @@ Section RunBlind.
     rewrite Hsel, <- Hdi, <- Hor, <- Hli, <- Hof. reflexivity.
   Qed.
 End RunBlind.
+
+(* nesting depth of the rows as the row loop sees it *)
+Lemma adepth_arr l : adepth (VArr l) = S (rdepth l).
+Proof.
+  unfold rdepth. induction l as [|x l IH]; [reflexivity|].
+  change (adepth (VArr (x :: l))) with (S (Nat.max (adepth x) (pred (adepth (VArr l))))).
+  rewrite IH. reflexivity.
+Qed.
+
+Lemma rdepth_in v rows : In v rows -> adepth v <= rdepth rows.
+Proof.
+  unfold rdepth. induction rows as [|x rows IH]; intros Hin; [contradiction|].
+  cbn [fold_right]. destruct Hin as [<-|Hin]; [lia|]. specialize (IH Hin). lia.
+Qed.
 
 Section ExecBlind.
   Variable call : string -> string -> list value -> row -> res raw.
@@ -372,11 +392,39 @@ Section ExecBlind.
     ex n a (JRows s rows) = ex n b (JRows s' rows).
   Proof.
     induction n as [|n IH]; intros a b s s' rows Hb Hp; [reflexivity|]. cbn [exec exec_step].
-    apply run_select_blind; auto.
+    apply run_select_blind; auto. intros inner _.
+    apply IH; [apply blind_copy; exact Hb|apply same_pipeline_copy; exact Hp].
   Qed.
 
   Corollary run_select_blind_exec n a b s s' rows :
     blind_select s = true -> same_pipeline s s' ->
     run_select (ex n) call join a s (Some rows) = run_select (ex n) call join b s' (Some rows).
-  Proof. intros Hb Hp. apply run_select_blind; auto. intros; apply exec_rows_blind; auto. Qed.
+  Proof.
+    intros Hb Hp. apply run_select_blind; auto. intros inner _.
+    apply exec_rows_blind; [apply blind_copy; exact Hb|apply same_pipeline_copy; exact Hp].
+  Qed.
+
+  (* ... and any fuel above the nesting depth of the rows is enough: the only recursion of such a
+     SELECT is into the inner arrays among its rows *)
+  Theorem rows_fuel_enough n : forall m a b s s' rows,
+    blind_select s = true -> same_pipeline s s' ->
+    rdepth rows < n -> rdepth rows < m ->
+    ex n a (JRows s rows) = ex m b (JRows s' rows).
+  Proof.
+    induction n as [|n IH]; intros m a b s s' rows Hb Hp Hn Hm; [lia|].
+    destruct m as [|m]; [lia|]. cbn [exec exec_step].
+    apply run_select_blind; auto. intros inner Hin.
+    apply rdepth_in in Hin. rewrite adepth_arr in Hin.
+    apply IH; [apply blind_copy; exact Hb|apply same_pipeline_copy; exact Hp|lia|lia].
+  Qed.
+
+  Corollary run_select_fuel_enough n m a b s s' rows :
+    blind_select s = true -> same_pipeline s s' ->
+    rdepth rows <= n -> rdepth rows <= m ->
+    run_select (ex n) call join a s (Some rows) = run_select (ex m) call join b s' (Some rows).
+  Proof.
+    intros Hb Hp Hn Hm. apply run_select_blind; auto. intros inner Hin.
+    apply rdepth_in in Hin. rewrite adepth_arr in Hin.
+    apply rows_fuel_enough; [apply blind_copy; exact Hb|apply same_pipeline_copy; exact Hp|lia|lia].
+  Qed.
 End ExecBlind.
